@@ -103,7 +103,9 @@ class one3d(PseudoNetCDFFile):
         time_date = array(self.__memmap.reshape(
             self.__records, self.__record_items)[:, 1:3])
 
-        lays = where(time_date != time_date[newaxis, 0])[0][0]
+        changed = where(time_date != time_date[newaxis, 0])[0]
+        # a single-step file never changes its time stamp
+        lays = changed[0] if changed.size else self.__records
 
         new_hour = slice(0, None, lays)
 
